@@ -849,3 +849,15 @@ def r19_10(run):
 
 RULES = [("R19.8", r19_8), ("R19.7", r19_7), ("R19.1", r19_1), ("R19.2", r19_2), ("R19.3", r19_3), ("R19.4", r19_4), ("R19.5", r19_5), ("R19.9", r19_9), ("R19.10", r19_10)]
 THOROUGH = [("R19.6", r19_6)]
+
+
+def r19_11(run):
+    """a library fluid is what its data files say, every time it is loaded: the loaders, the property classes and the std-type
+    classes keep no state between calls (no memoising decorator, no module-level container that is changed).  A cached property
+    *object* is shared by every net that loads the fluid, so a change made for one net (or one in-place tuned value) shows up in all
+    later loads -- shared with C12 R12.8."""
+    from .c12 import r12_8
+    r12_8(run)
+
+
+RULES.append(("R19.11", r19_11))
